@@ -1244,10 +1244,13 @@ func (vm *VirtualMachine) Clone() (*VirtualMachine, error) {
 		os:           vm.os,
 		main:         vm.main,
 		inputGlobals: vm.inputGlobals,
-		globals:      vm.globals,
-		modules:      modules,
-		loadedCode:   loadedCode,
-		concAllowed:  vm.concAllowed,
+		// Code that the clone loads (a module imported in a spawned function)
+		// starts out with the globals of the current run, like code that this
+		// VM loads, not with every global it was ever given
+		globals:     vm.loadableGlobals(),
+		modules:     modules,
+		loadedCode:  loadedCode,
+		concAllowed: vm.concAllowed,
 	}
 
 	// Only activate main code if it exists
